@@ -14,9 +14,10 @@
  *   k X v | k T text type err | k G text v | k U token | k R field id
  *   k V / k W     harness-level save / restore of the instance (memcpy of the object)
  *   = name        start of a new script: all instances are dropped
+ *   ? ...         twin-run assertion for the model driver; ignored here
  *
  * Trace: "= name" echoed; per op "O <n>"; events "E field cbid ud inst args | sample"
- * (sorted within the op); "R ret"; then "D inst key value" for every key that changed.
+ * (in the order the callbacks were made); "R ret"; then "D inst key value" for every key that changed.
  * Integers only; no addresses.
  */
 #define _GNU_SOURCE
@@ -206,12 +207,6 @@ do_register(rdsparser_t *r, int field, int id)
     }
 }
 
-static int
-cmp_ev(const void *a, const void *b)
-{
-    return strcmp((const char *)a, (const char *)b);
-}
-
 static void
 check_guards(int k, long opno)
 {
@@ -290,7 +285,7 @@ main(int argc, char **argv)
     {
         size_t len = strlen(line);
         while (len && (line[len - 1] == '\n' || line[len - 1] == '\r')) line[--len] = '\0';
-        if (len == 0 || line[0] == '#') continue;
+        if (len == 0 || line[0] == '#' || line[0] == '?') continue;
         if (line[0] == '=')
         {
             drop_all();
@@ -436,7 +431,6 @@ main(int argc, char **argv)
             fprintf(stderr, "harness: unknown op %c\n", opc);
             return 2;
         }
-        qsort(events, nevents, VALSZ, cmp_ev);
         for (int i = 0; i < nevents; i++) printf("%s\n", events[i]);
         printf("R %ld\n", ret);
         print_deltas();
